@@ -111,45 +111,55 @@ RefreshIdx(idx, ce, pss, uid) ==
 \* is abstracted to "the uid of the handle used"
 
 (* ------------------- CompositeEnvelope.__init__( args ) -------------------- *)
-\* args: free envelopes E, free custom states K, existing handles G (merged)
-NewCompositeL(h, E, K, G) ==
+\* args: envelopes E (free, or members of a composite: their composite is merged), free custom states K,
+\* existing handles Gs IN THE ORDER GIVEN.  As in the code:
+\*   composite_envelopes = Gs followed by e.composite_envelope (= _instances[e.composite_envelope_id][0], the handle
+\*   that was born with that uid) for every given envelope that has one and is not in the list yet;
+\*   the container of the FIRST of them survives, the others are appended to it once each, in order of appearance;
+\*   every handle in the list gets the new uid; registry entries of absorbed containers are re-pointed to the survivor.
+\* Handles are created in order and each creation allocates one uid, so the handle born with uid u is handle u.
+RECURSIVE DistinctSeq(_, _)
+DistinctSeq(sq, seen) == IF sq = <<>> THEN <<>>
+                         ELSE IF Head(sq) \in seen THEN DistinctSeq(Tail(sq), seen)
+                         ELSE <<Head(sq)>> \o DistinctSeq(Tail(sq), seen \cup {Head(sq)})
+NewCompositeL(h, E, K, Gs) ==
   /\ hUid[h] = 0 /\ steps < MaxSteps
   /\ E \subseteq {e \in EnvsL : ~eMeas[e]} /\ K \subseteq {s \in SubsL : IsCus(s)}
-  /\ G \subseteq {g \in HandlesL : hUid[g] # 0}
-  /\ E \cup K \cup G # {}
-  \* composite envelopes to merge: the given handles plus the composites of the given envelopes
+  /\ RngL(Gs) \subseteq {g \in HandlesL : hUid[g] # 0}
+  /\ E \cup K \cup RngL(Gs) # {}
   /\ LET uid   == nUid + 1
-         viaE  == {cOf[eUid[e]] : e \in {x \in E : eUid[x] # 0}}
-         mconts == {cOf[hUid[g]] : g \in G} \cup viaE
-         \* the first container is kept, the others are appended to it (deterministic order: least id)
-         keep  == IF mconts = {} THEN nCont + 1 ELSE CHOOSE c \in mconts : \A d \in mconts : c <= d
-         dupHandles == \E g1, g2 \in G : g1 # g2 /\ cOf[hUid[g1]] = cOf[hUid[g2]]
-         others == IF Fault = "dup_on_merge" /\ dupHandles THEN <<keep>> \o SetToSeqL(mconts \ {keep})
-                   ELSE SetToSeqL(mconts \ {keep})
+         viaE  == SelectSeq(SetToSeqL(E), LAMBDA e : eUid[e] # 0)
+         L     == DistinctSeq(Gs \o [i \in 1..Len(viaE) |-> eUid[viaE[i]]], {})     \* handles, in the code's order
+         CL    == [i \in 1..Len(L) |-> cOf[hUid[L[i]]]]
+         keep  == IF L = <<>> THEN nCont + 1 ELSE CL[1]
+         rest  == SelectSeq(IF L = <<>> THEN <<>> ELSE Tail(CL), LAMBDA c : c # keep)
+         others == IF Fault = "dup_on_merge" THEN rest ELSE DistinctSeq(rest, {})
+         absorbed == RngL(others)
          RECURSIVE Cat(_, _)
          Cat(f, i) == IF i > Len(others) THEN <<>> ELSE f[others[i]] \o Cat(f, i + 1)
-         nps   == (IF mconts = {} THEN <<>> ELSE cPS[keep]) \o Cat(cPS, 1)
-         nids  == (IF mconts = {} THEN <<>> ELSE psId[keep]) \o Cat(psId, 1)
-         oldE  == (IF mconts = {} THEN <<>> ELSE cEnvs[keep]) \o Cat(cEnvs, 1)
-         oldO  == (IF mconts = {} THEN <<>> ELSE cObjs[keep]) \o Cat(cObjs, 1)
+         nps   == (IF L = <<>> THEN <<>> ELSE cPS[keep]) \o Cat(cPS, 1)
+         nids  == (IF L = <<>> THEN <<>> ELSE psId[keep]) \o Cat(psId, 1)
+         oldE  == DistinctSeq((IF L = <<>> THEN <<>> ELSE cEnvs[keep]) \o Cat(cEnvs, 1), {})
+         oldO  == DistinctSeq((IF L = <<>> THEN <<>> ELSE cObjs[keep]) \o Cat(cObjs, 1), {})
          addE  == SetToSeqL(E \ RngL(oldE))
          newO  == UNION {{FockOfE(e), PolOfE(e)} : e \in E} \cup K
          addO  == SetToSeqL(newO \ RngL(oldO))
          envs2 == oldE \o addE
          r     == IF Fault = "no_refresh_on_merge" THEN [idx |-> sIdx, ce |-> sCE] ELSE RefreshIdx(sIdx, sCE, nps, uid)
-     IN /\ nUid' = uid
-        /\ nCont' = IF mconts = {} THEN nCont + 1 ELSE nCont
-        \* every handle of a merged composite now carries the new uid
-        /\ hUid' = [x \in HandlesL |-> IF x = h THEN uid
-                                        ELSE IF hUid[x] # 0 /\ cOf[hUid[x]] \in mconts THEN uid ELSE hUid[x]]
-        /\ cOf' = [u \in Uids |-> IF u = uid THEN keep ELSE IF cOf[u] \in mconts THEN 0 ELSE cOf[u]]
-        /\ cEnvs' = [c \in Conts |-> IF c = keep THEN envs2 ELSE IF c \in mconts THEN <<>> ELSE cEnvs[c]]
-        /\ cObjs' = [c \in Conts |-> IF c = keep THEN oldO \o addO ELSE IF c \in mconts THEN <<>> ELSE cObjs[c]]
-        /\ cPS'   = [c \in Conts |-> IF c = keep THEN nps ELSE IF c \in mconts THEN <<>> ELSE cPS[c]]
-        /\ psId'  = [c \in Conts |-> IF c = keep THEN nids ELSE IF c \in mconts THEN <<>> ELSE psId[c]]
+         orphanKept == Fault = "stale_handles"      \* the pinned code left absorbed containers registered and untouched
+     IN /\ uid = h                                  \* (see above)
+        /\ nUid' = uid
+        /\ nCont' = IF L = <<>> THEN nCont + 1 ELSE nCont
+        /\ hUid' = [x \in HandlesL |-> IF x = h \/ x \in RngL(L) THEN uid ELSE hUid[x]]
+        /\ cOf' = [u \in Uids |-> IF u = uid THEN keep
+                                   ELSE IF cOf[u] \in absorbed /\ ~orphanKept THEN keep ELSE cOf[u]]
+        /\ cEnvs' = [c \in Conts |-> IF c = keep THEN envs2 ELSE IF c \in absorbed /\ ~orphanKept THEN <<>> ELSE cEnvs[c]]
+        /\ cObjs' = [c \in Conts |-> IF c = keep THEN oldO \o addO ELSE IF c \in absorbed /\ ~orphanKept THEN <<>> ELSE cObjs[c]]
+        /\ cPS'   = [c \in Conts |-> IF c = keep THEN nps ELSE IF c \in absorbed /\ ~orphanKept THEN <<>> ELSE cPS[c]]
+        /\ psId'  = [c \in Conts |-> IF c = keep THEN nids ELSE IF c \in absorbed /\ ~orphanKept THEN <<>> ELSE psId[c]]
         /\ eUid' = [e \in EnvsL |-> IF e \in RngL(envs2) THEN uid ELSE eUid[e]]
         /\ sIdx' = r.idx /\ sCE' = r.ce
-        /\ lastEv' = Ev("new_composite", "ce", SetToSeqL(newO), SetToSeqL(mconts \cup {keep}), h, FALSE, FALSE, <<>>)
+        /\ lastEv' = Ev("new_composite", "ce", SetToSeqL(newO), SetToSeqL(absorbed \cup {keep}), h, FALSE, FALSE, <<>>)
         /\ UNCHANGED <<eBlock, eMeas, sOwn, sMeas, nPs>>
   /\ steps' = steps + 1
 
@@ -207,6 +217,30 @@ CECombineL(h, T) ==
   /\ steps' = steps + 1
   /\ UNCHANGED <<hUid, cOf, cEnvs, cObjs, eUid, eMeas, sMeas, nUid, nCont>>
 
+
+(* ------------------------ CompositeEnvelope.reorder ------------------------ *)
+\* reorder(T): T must already share a product space (otherwise combine first); the named subsystems are
+\* swapped, one after the other, to the front positions of that product space; indices are refreshed
+RECURSIVE SwapFront(_, _, _)
+SwapFront(order, T, i) ==
+  IF i > Len(T) THEN order
+  ELSE LET j == IndexIn(order, T[i]) IN
+       IF j = i THEN SwapFront(order, T, i + 1)
+       ELSE SwapFront([k \in 1..Len(order) |-> IF k = i THEN T[i] ELSE IF k = j THEN order[i] ELSE order[k]], T, i + 1)
+CEReorderL(h, T) ==
+  /\ steps < MaxSteps /\ hUid[h] # 0
+  /\ LET c == cOf[hUid[h]] uid == hUid[h] IN
+     /\ c # 0 /\ T # <<>>
+     /\ \E k \in 1..Len(cPS[c]) : RngL(T) \subseteq RngL(cPS[c][k])
+     /\ LET k == CHOOSE kk \in 1..Len(cPS[c]) : RngL(T) \subseteq RngL(cPS[c][kk])
+            pss == [cPS[c] EXCEPT ![k] = SwapFront(cPS[c][k], T, 1)]
+            r == RefreshIdx(sIdx, sCE, pss, uid)
+        IN /\ cPS' = [cPS EXCEPT ![c] = pss]
+           /\ sIdx' = r.idx /\ sCE' = r.ce
+           /\ lastEv' = Ev("reorder", "ce", T, <<c>>, 0, FALSE, FALSE, <<>>)
+  /\ steps' = steps + 1
+  /\ UNCHANGED <<hUid, cOf, cEnvs, cObjs, psId, eUid, eBlock, eMeas, sOwn, sMeas, nUid, nCont, nPs>>
+
 (* ------------------------------ measurement ------------------------------- *)
 \* CompositeEnvelope.measure( S, separate_measurement, destructive ) through handle h
 CEMeasureL(h, S, sep, destr) ==
@@ -237,6 +271,28 @@ CEMeasureL(h, S, sep, destr) ==
   /\ steps' = steps + 1
   /\ UNCHANGED <<hUid, cOf, cObjs, nUid, nCont, nPs>>
 
+
+(* ----------------------------- Envelope.measure ---------------------------- *)
+\* env.measure( S, separate_measurement, destructive ) for an envelope whose members are both stored in
+\* the envelope (combined) or both hold their own state; S = {} means both members
+EnvMeasureL(e, S, sep, destr) ==
+  /\ steps < MaxSteps /\ ~eMeas[e]
+  /\ LET mem == {FockOfE(e), PolOfE(e)} IN
+     /\ S \subseteq mem /\ \A s \in mem : ~sMeas[s] /\ (sOwn[s] \/ eBlock[e] # <<>>)
+     /\ LET M == IF sep /\ Cardinality(S) = 1 THEN S ELSE mem
+            D == IF destr THEN M ELSE {}
+        IN /\ eBlock' = [eBlock EXCEPT ![e] = <<>>]
+           /\ sMeas' = [s \in SubsL |-> sMeas[s] \/ s \in D]
+           /\ sOwn' = [s \in SubsL |-> IF s \in D THEN FALSE ELSE IF s \in mem THEN TRUE ELSE sOwn[s]]
+           /\ sIdx' = [s \in SubsL |-> IF s \in mem THEN <<>> ELSE sIdx[s]]
+           \* the envelope is retired (and leaves its composite) whenever the call was destructive
+           /\ eMeas' = [eMeas EXCEPT ![e] = destr]
+           /\ cEnvs' = [c \in Conts |-> IF destr THEN SeqWithout(cEnvs[c], {e}) ELSE cEnvs[c]]
+           /\ eUid' = [eUid EXCEPT ![e] = IF destr THEN 0 ELSE @]
+           /\ lastEv' = Ev("measure", "env", SetToSeqL(IF S = {} THEN mem ELSE S), <<>>, 0, sep, destr, SetToSeqL(M))
+  /\ steps' = steps + 1
+  /\ UNCHANGED <<hUid, cOf, cObjs, cPS, psId, sCE, nUid, nCont, nPs>>
+
 LInit ==
   /\ hUid = [h \in HandlesL |-> 0] /\ cOf = [u \in Uids |-> 0]
   /\ cEnvs = [c \in Conts |-> <<>>] /\ cObjs = [c \in Conts |-> <<>>] /\ cPS = [c \in Conts |-> <<>>]
@@ -247,16 +303,22 @@ LInit ==
   /\ nUid = 0 /\ nCont = 0 /\ nPs = 0 /\ steps = 0
   /\ lastEv = Ev("init", "cfg", <<>>, <<>>, 0, FALSE, FALSE, <<>>)
 
+\* sequences of up to three distinct handles
+HandleSeqs == {<<>>} \cup {<<a>> : a \in HandlesL}
+              \cup {sq \in {<<a, b>> : a \in HandlesL, b \in HandlesL} : sq[1] # sq[2]}
+              \cup {sq \in {<<a, b, c>> : a \in HandlesL, b \in HandlesL, c \in HandlesL} :
+                       sq[1] # sq[2] /\ sq[1] # sq[3] /\ sq[2] # sq[3]}
 FreeEnv(e) == eUid[e] = 0 /\ ~eMeas[e]
 FreeCus(s) == IsCus(s) /\ \A c \in Conts : s \notin RngL(cObjs[c])
 LNext ==
   \/ \E h \in HandlesL : \E E \in SUBSET {e \in EnvsL : ~eMeas[e]} : \E K \in SUBSET {s \in SubsL : FreeCus(s)} :
-       \E G \in SUBSET {g \in HandlesL : hUid[g] # 0} :
-          /\ Cardinality(E) + Cardinality(K) + Cardinality(G) <= 3
-          /\ (IF h = 1 THEN TRUE ELSE hUid[h - 1] # 0)                      \* handles are created in order (symmetry)
-          /\ NewCompositeL(h, E, K, G)
+       \E Gs \in HandleSeqs :
+          /\ Cardinality(E) + Cardinality(K) + Len(Gs) <= 3
+          /\ (IF h = 1 THEN TRUE ELSE hUid[h - 1] # 0)                      \* handles are created in order
+          /\ NewCompositeL(h, E, K, Gs)
   \/ \E e \in EnvsL : EnvCombineL(e) \/ EnvReorderL(e)
-  \/ \E h \in HandlesL : \E T \in SeqsUpTo2 : CECombineL(h, T)
+  \/ \E h \in HandlesL : \E T \in SeqsUpTo2 : CECombineL(h, T) \/ CEReorderL(h, T)
+  \/ \E e \in EnvsL : \E S \in SUBSET {FockOfE(e), PolOfE(e)} : \E sep, destr \in BOOLEAN : EnvMeasureL(e, S, sep, destr)
   \/ \E h \in HandlesL : \E S \in SUBSET SubsL : \E sep, destr \in BOOLEAN :
        Cardinality(S) \in {1, 2} /\ CEMeasureL(h, S, sep, destr)
 LSpec == LInit /\ [][LNext]_lvars
